@@ -396,6 +396,80 @@ pub fn p3_events(t: Transport, minors: Vec<u32>, variant: u8) -> Spec {
     }
 }
 
+/// P3b: back-pressure. A subscriber on a (small bounded) transport holds a proxy with `n_sub`
+/// subscribed events and does not get to run while the owner emits a burst; then it lets go of
+/// the proxy in one of three ways (each makes its client task send several messages in a row) and
+/// must still be able to complete a round trip. `slow`: the subscriber's client task is a slow
+/// peer (canonically scheduled only when nothing else can run).
+pub fn p3_burst(t: Transport, minors: Vec<u32>, n_sub: u32, burst: u32, how: u8, slow: bool) -> Spec {
+    let m2 = minors.clone();
+    Spec {
+        name: "p3b-burst".into(),
+        params: serde_json::json!({"transport": format!("{t:?}"), "versions": minors, "subscribed": n_sub, "burst": burst, "how": how, "slow_subscriber": slow}),
+        f1_shape: false,
+        make: Box::new(move || {
+            let (id_tx, id_rx) = oneshot::channel::<ServiceId>();
+            let (ready_tx, ready_rx) = oneshot::channel::<()>();
+            let (go_tx, go_rx) = oneshot::channel::<()>();
+            let (done_tx, done_rx) = oneshot::channel::<()>();
+            let owner = app("owner", move |hs, _| {
+                Box::pin(async move {
+                    let h = hs[0].clone();
+                    drop(hs);
+                    let obj = es(h.create_object(ou(1)).await, "create object")?;
+                    let svc = es(obj.create_service(su(1), ServiceInfo::new(1)).await, "create service")?;
+                    let _ = id_tx.send(svc.id());
+                    let _ = ready_rx.await;
+                    for i in 0..burst {
+                        es(svc.emit(1 + i % n_sub.max(1), i), "emit")?;
+                    }
+                    let _ = go_tx.send(());
+                    es(h.sync_broker().await, "sync")?;
+                    let _ = done_rx.await;
+                    drop(svc);
+                    drop(obj);
+                    es(h.sync_broker().await, "sync")?;
+                    Ok(())
+                })
+            });
+            let sub = app("subscriber", move |hs, _| {
+                Box::pin(async move {
+                    let h = hs[1].clone();
+                    drop(hs);
+                    let sid = id_rx.await.map_err(|_| "owner gone".to_string())?;
+                    let mut p = es(h.create_proxy(sid).await, "proxy")?;
+                    for e in 1..=n_sub {
+                        es(p.subscribe(e).await, "subscribe")?;
+                    }
+                    let _ = ready_tx.send(());
+                    let _ = go_rx.await;
+                    match how {
+                        0 => drop(p),
+                        1 => {
+                            es(p.unsubscribe_all().await, "unsubscribe all")?;
+                            drop(p);
+                        }
+                        _ => {
+                            for e in 1..=n_sub {
+                                es(p.unsubscribe(e).await, "unsubscribe")?;
+                            }
+                            drop(p);
+                        }
+                    }
+                    // the client must still be able to talk to the broker
+                    es(h.sync_broker().await, "sync after letting go")?;
+                    let _ = done_tx.send(());
+                    Ok(())
+                })
+            });
+            let mut c = cfgs(2, Transport::Unbounded, &m2);
+            c[1].transport = t;
+            c[1].slow = slow;
+            (c, vec![owner, sub])
+        }),
+    }
+}
+
 async fn expect_event(p: &mut aldrin::low_level::Proxy, id: u32, val: u32) -> Result<(), String> {
     match p.next_event().await {
         Some(ev) => {
